@@ -484,6 +484,25 @@ def b_inplace(P, s, a, b, c, name):
             other = (_values(shape, dt, 7000 + b, 1.0) > 0).to(dt)  # a pruning mask
         fn = {"iadd_tensor": lambda t, o: t.add_(o), "isub_tensor": lambda t, o: t.sub_(o), "imul_tensor": lambda t, o: t.mul_(o)}[name]
         return dict(f=fn, ops=[("p", i), ("x", 0)], extra=[("plain", other)], klass="requant", inplace=0)
+    if name == "ikw":
+        # in-place operations carrying KEYWORD-ONLY arguments of the aten schema (alpha, value, rounding_mode)
+        shape = list(t.shape)
+        mag = float(deq(t).abs().max().to(torch.float64)) + 1e-3
+        y = gen.clamp_finite(_values(shape, dt, 7200 + b, 1.0).to(torch.float64) * 0.3 * mag, dt)
+        z = gen.clamp_finite(_values(shape, dt, 7300 + b, 1.0).to(torch.float64).abs() + 0.5, dt)
+        form = c % 6
+        if form == 0:
+            return dict(f=lambda t, o: t.add_(o, alpha=3), ops=[("p", i), ("x", 0)], extra=[("plain", y)], klass="requant", inplace=0)
+        if form == 1:
+            return dict(f=lambda t, o: t.sub_(o, alpha=0.25), ops=[("p", i), ("x", 0)], extra=[("plain", y)], klass="requant", inplace=0)
+        if form == 2:
+            return dict(f=lambda t, o: t.addcmul_(o, z, value=0.5), ops=[("p", i), ("x", 0)], extra=[("plain", y)], klass="requant", inplace=0)
+        if form == 3:
+            return dict(f=lambda t, o: t.addcdiv_(o, z, value=2.0), ops=[("p", i), ("x", 0)], extra=[("plain", y)], klass="requant", inplace=0)
+        if form == 4:
+            kq = 0.3 * mag
+            return dict(f=lambda t: t.div_(kq, rounding_mode="floor"), ops=[i], klass="requant", inplace=0)
+        return dict(f=lambda t: t.add_(1.0, alpha=0.5 * mag), ops=[i], klass="requant", inplace=0)
     if name == "clamp_":
         lim = 0.4 * float(deq(t).abs().max())
         f = [lambda t: t.clamp_(min=0), lambda t: t.clamp_(-lim, lim), lambda t: t.clamp_(max=lim)][c % 3]
@@ -523,7 +542,7 @@ def b_inplace(P, s, a, b, c, name):
     return None
 
 
-INPLACE = ["iadd_empty", "t_", "transpose_", "unsqueeze_", "squeeze_", "relu_", "relu_", "neg_", "zero_", "imul_scalar", "idiv_scalar", "iadd_scalar", "iadd_tensor", "isub_tensor", "imul_tensor", "clamp_", "masked_fill_", "fill_", "sigmoid_"]
+INPLACE = ["ikw", "ikw", "iadd_empty", "t_", "transpose_", "unsqueeze_", "squeeze_", "relu_", "relu_", "neg_", "zero_", "imul_scalar", "idiv_scalar", "iadd_scalar", "iadd_tensor", "isub_tensor", "imul_tensor", "clamp_", "masked_fill_", "fill_", "sigmoid_"]
 
 
 def b_scalar(P, s, a, b, c, name):
@@ -1199,6 +1218,10 @@ def run_program(case, mode, out=None):
                         # user can observe, so that later frame checks compare like with like.
                         if v is operands[inplace]:
                             P.twins[j] = P.twins[idxs[inplace]]  # the very same object under another pool index (x.to(its own dtype) is x)
+                            continue
+                        same = next((k for k in range(j) if P.vals[k] is v and k != idxs[inplace]), None)
+                        if same is not None:
+                            P.twins[j] = P.twins[same]  # one object, one twin (it was re-synchronised under its first index)
                             continue
                         cur = cut(deq, v)
                         if isinstance(cur, torch.Tensor):
